@@ -20,7 +20,8 @@ K      : daun sessions (sizes x degrees x regularisers x strengths incl. numeric
          basis_dir_cleanup, file damage/removal) executed on the real get_bs_cached functions and on the Lean machine:
          outcome class, memory key and directory listing after every operation must agree
 S      : every returned basis/operator equals a freshly generated one; transform-level histories over the wide
-         parameter lattice vs the same call in a pristine (reloaded) module; basis_dir_cleanup exactness
+         parameter lattice vs the same call in a pristine (reloaded) module; basis_dir_cleanup exactness, also for
+         directories whose names contain glob metacharacters
 """
 import glob
 import importlib
